@@ -37,7 +37,15 @@ type fpaReplayResult struct {
 // choice), `s:<move>` a scripted move; `illegal` the last move is not legal on the board; `resign` the
 // rule check rejected the last move; `panic`; `end` choices exhausted; `done` horizon reached.
 func fpaReplay(variant string, color tak.Color, size int, choices []tak.Move) (res fpaReplayResult) {
+	return fpaReplayWith(nil, variant, color, size, choices)
+}
+
+// rule != nil: a rule value that has been through earlier games
+func fpaReplayWith(rule fpa.FPARule, variant string, color tak.Color, size int, choices []tak.Move) (res fpaReplayResult) {
 	v := fpa.VerifNewFPA(variant, color, size)
+	if rule != nil {
+		v = fpa.VerifNewFPAWithRule(rule, color, size)
+	}
 	res.v = v
 	horizon := fpaHorizon(variant)
 	ci := 0
@@ -112,6 +120,32 @@ func init() {
 		return strings.Join(r.trace, " ")
 	}
 	// the prefix's trace and, if it stops for want of a free move, every legal move there that the rule accepts
+	// fpaseq <variant> <game> | <game> | ...   (game = colour size moves...): ONE rule value plays the games in turn
+	opTable["fpaseq"] = func(s *Session, a []string) string {
+		rule := fpa.VerifNewRule(a[0])
+		var out []string
+		var cur []string
+		flush := func() {
+			if len(cur) >= 2 {
+				var ms []tak.Move
+				for _, t := range cur[2:] {
+					ms = append(ms, decMove(t))
+				}
+				r := fpaReplayWith(rule, a[0], fpaColor(cur[0]), atoi(cur[1]), ms)
+				out = append(out, strings.Join(r.trace, " "))
+			}
+			cur = nil
+		}
+		for _, t := range a[1:] {
+			if t == "|" {
+				flush()
+			} else {
+				cur = append(cur, t)
+			}
+		}
+		flush()
+		return strings.Join(out, " || ")
+	}
 	opTable["fpaopts"] = func(s *Session, a []string) string {
 		variant, color, size, ms := fpaArgs(a)
 		r := fpaReplay(variant, color, size, ms)
@@ -250,6 +284,55 @@ func genC20(c *Ctx) {
 				c.Emit("fpafn dir " + strconv.Itoa(a) + " " + strconv.Itoa(b) + " " + strconv.Itoa(a) + " " + strconv.Itoa(b))
 			}
 		}
+	}
+	// ONE rule value plays several games (the bot builds its rule once; "size" tells change the board between games)
+	ns := c.Scale(200, 3000)
+	for i := 0; i < ns; i++ {
+		variant := []string{"center", "doublestack", "cairn", "cairn"}[c.R.Intn(4)]
+		ng := 2 + c.R.Intn(4)
+		line := "fpaseq " + variant
+		for g := 0; g < ng; g++ {
+			size := 3 + c.R.Intn(6)
+			if g == 0 && c.R.Intn(2) == 0 {
+				size = []int{3, 8, 5}[c.R.Intn(3)]
+			}
+			col := []string{"W", "B"}[c.R.Intn(2)]
+			if g > 0 && c.R.Intn(3) > 0 {
+				col = "W"
+			}
+			var choices []string
+			for {
+				args := variant + " " + col + " " + strconv.Itoa(size)
+				if len(choices) > 0 {
+					args += " " + strings.Join(choices, " ")
+				}
+				parts := strings.Split(execLine(c.S, "fpaopts "+args), " | ")
+				if len(parts) != 3 {
+					break
+				}
+				opts := parseMovesList(parts[2])
+				if len(opts) == 0 {
+					break
+				}
+				choices = append(choices, opts[c.R.Intn(len(opts))])
+			}
+			if g > 0 {
+				line += " |"
+			}
+			line += " " + col + " " + strconv.Itoa(size)
+			if len(choices) > 0 {
+				line += " " + strings.Join(choices, " ")
+			}
+		}
+		out := c.Emit(line)
+		ok := "done"
+		for _, t := range strings.Split(out, " || ") {
+			f := strings.Fields(t)
+			if len(f) == 0 || f[len(f)-1] != "done" {
+				ok = "fail"
+			}
+		}
+		c.Count("C20.seq." + variant + ".games~" + strconv.Itoa(ng) + "." + ok)
 	}
 	// adjacent() on random boards
 	n := c.Scale(3000, 100000)
